@@ -103,6 +103,8 @@ package run
 //@ ensures result == nil ==> !callobs(PutPoint, 0, drop)
 //@ ensures ncalls(InitPt) == 1 && old(options.Type) == TypeText ==> callarg(InitPt, 0, 1) == "default_name" && callarg(InitPt, 0, 2) == nil && callobs(InitPt, 0, onlyMessage)
 //@ ensures ncalls(InitPt) == 1 && old(options.Type) == TypeLineProtocol ==> callarg(InitPt, 0, 1) == callres((*client.Point).Name, 0, 0) && callarg(InitPt, 0, 2) == callres((*client.Point).Tags, 0, 0) && callarg(InitPt, 0, 3) == callres((*client.Point).Fields, 0, 0) && callarg(InitPt, 0, 4) == callres((*client.Point).Time, 0, 0)
+// what is parsed is the whole input file, as read
+//@ ensures ncalls(models.ParsePointsWithPrecision) >= 1 ==> ncalls(os.ReadFile) == 1 && callarg(os.ReadFile, 0, 0) == old(options.Input) && callarg(models.ParsePointsWithPrecision, 0, 0) == callres(os.ReadFile, 0, 0)
 //@ ensures ncalls(InitPt) == 1 && old(options.Type) == TypeLineProtocol ==> ncalls(models.ParsePointsWithPrecision) == 1 && ncalls(client.NewPointFrom) == 1 && len(callres(models.ParsePointsWithPrecision, 0, 0)) > 0 && callarg(client.NewPointFrom, 0, 0) == callres(models.ParsePointsWithPrecision, 0, 0)[0]
 //@ ensures ncalls(InitPt) == 1 && old(options.Type) == TypeLineProtocol ==> callarg((*client.Point).Name, 0, 0) == callres(client.NewPointFrom, 0, 0) && callarg((*client.Point).Tags, 0, 0) == callres(client.NewPointFrom, 0, 0) && callarg((*client.Point).Fields, 0, 0) == callres(client.NewPointFrom, 0, 0) && callarg((*client.Point).Time, 0, 0) == callres(client.NewPointFrom, 0, 0)
 //@ ensures ncalls(InitPt) == 1 && old(options.Type) == TypeLineProtocol ==> ncalls((*client.Point).Name) == 1 && ncalls((*client.Point).Tags) == 1 && ncalls((*client.Point).Fields) == 1 && ncalls((*client.Point).Time) == 1
